@@ -213,6 +213,62 @@ theorem splitDigits_eq (B : Nat) (v : Int) (pos : Nat) : splitDigits B v pos = s
         rw [e]
       · simp [hp]
 
+/-- **`shl_digits` / `shl_digits_in_place`**: the base-2, base-10, power-of-two and generic paths all
+    multiply by `B^k` -/
+@[simp] theorem shlDigits_eq (B : Nat) (v : Int) (k : Nat) : shlDigits B v k = v * ((B ^ k : Nat) : Int) := by
+  unfold shlDigits ishl
+  by_cases h0 : k = 0
+  · subst h0; simp
+  · simp only [h0, if_false]
+    by_cases h2 : B = 2
+    · subst h2; simp
+    · simp only [h2, if_false]
+      by_cases h10 : B = 10
+      · subst h10
+        simp only [if_true]
+        have : (10 : Nat) ^ k = 5 ^ k * 2 ^ k := by rw [← Nat.mul_pow]
+        rw [this]; push_cast; ring
+      · simp only [h10, if_false]
+        by_cases hp : isPow2 B = true
+        · simp only [hp, if_true]
+          have e : 2 ^ (k * B.log2) = B ^ k := by
+            conv_rhs => rw [isPow2_spec B hp]
+            rw [← Nat.pow_mul, Nat.mul_comm]
+          rw [e]
+        · simp [hp]
+
+theorem shrRef_eq (v : Int) (n : Nat) : shrRef v n = Int.tdiv v ((2 ^ n : Nat) : Int) := by
+  have := congrArg Prod.fst (splitBits_spec v n)
+  simpa [splitBits, shrRef] using this
+
+/-- **`shr_digits`**: the base-2, base-10, power-of-two and generic paths all divide by `B^k` toward zero -/
+@[simp] theorem shrDigits_eq (B : Nat) (v : Int) (k : Nat) : shrDigits B v k = Int.tdiv v ((B ^ k : Nat) : Int) := by
+  unfold shrDigits
+  by_cases h0 : k = 0
+  · subst h0; simp
+  · simp only [h0, if_false]
+    by_cases h2 : B = 2
+    · subst h2; simp only [if_true]; exact shrRef_eq v k
+    · simp only [h2, if_false]
+      by_cases h10 : B = 10
+      · subst h10
+        simp only [if_true]
+        have := congrArg Prod.fst (splitDigits_eq 10 v k)
+        simp only [splitDigits, h0, if_false, if_true, splitSpec] at this
+        rw [shrRef_eq]
+        have e : (splitBits v k).1 = Int.tdiv v ((2 ^ k : Nat) : Int) := congrArg Prod.fst (splitBits_spec v k)
+        rw [e] at this
+        exact this
+      · simp only [h10, if_false]
+        by_cases hp : isPow2 B = true
+        · simp only [hp, if_true]
+          rw [shrRef_eq]
+          have e : 2 ^ (k * B.log2) = B ^ k := by
+            conv_rhs => rw [isPow2_spec B hp]
+            rw [← Nat.pow_mul, Nat.mul_comm]
+          rw [e]
+        · simp [hp]
+
 /-- the decomposition delivered by `split_digits` -/
 theorem splitDigits_spec (B : Nat) (hB : 2 ≤ B) (v : Int) (pos : Nat) :
     v = (splitDigits B v pos).1 * ((B ^ pos : Nat) : Int) + (splitDigits B v pos).2 ∧
